@@ -226,6 +226,14 @@ class Kernel:
                 return ra / rb
             return Opaque("binop")
         if isinstance(node, ast.Compare):
+            if len(node.ops) == 1 and isinstance(node.ops[0], (ast.Is, ast.IsNot)) and isinstance(node.comparators[0], ast.Constant) \
+                    and node.comparators[0].value is None:
+                # `x is None` / `x is not None` for a name bound in the environment (an option the kernel is translated for)
+                lv = self.env.get(node.left.id, Opaque("name")) if isinstance(node.left, ast.Name) else self.ev(node.left)
+                if isinstance(lv, Opaque):
+                    return Opaque("identity test on opaque")
+                res = lv is None
+                return res if isinstance(node.ops[0], ast.Is) else (not res)
             left = self.ev(node.left)
             out = []
             for op, rn in zip(node.ops, node.comparators):
